@@ -7,6 +7,11 @@ values the model predicts must equal the observed ones."""
 import itertools, math, re
 from vlib import caseio
 
+import os
+# short UBSan stack traces (file:line only): the entry announcement of the harness must stay within the
+# tail of stderr the runner keeps
+os.environ.setdefault("UBSAN_OPTIONS", 'print_stacktrace=1:halt_on_error=1:stack_trace_format="#%n %L"')
+
 ID = "C14"
 COQ_TARGETS = ["C14_Extract.vo", "C14_Proofs.vo", "C14_Regress.vo"]
 EXTRACTED = "C14_model"
@@ -387,7 +392,38 @@ def g_lifetime(g, rng, tier):
         g.add("lifetime", "valid", dict(what="gpf_move_fresh"), tag="uninitialised-flag")
 
 
-GENS = [g_wna, g_simstate, g_linsensor, g_history, g_grid, g_sigma, g_psaug, g_ut, g_kf, g_ukf, g_resample, g_density, g_extract, g_lifetime]
+PERTURB = {"wna": ["num", "sr", "sc", "mr", "mc", "pr", "pc", "cr", "cc"], "simstate": ["ir", "T"], "linsensor": ["ir", "sn", "rr", "rc", "sr"],
+           "grid": ["n", "nx"], "ut": ["w", "pr", "pc", "qr", "qc"], "kfp": ["d", "compsq"], "kfc": ["n", "yr", "compsq"], "ukfp": ["q"],
+           "ukfc": ["r", "ir", "compsq"], "sukf": ["r", "ir", "sub", "msz", "compsq"], "resample": ["nr", "np"], "resprior": ["np"],
+           "density": ["k", "a", "b"], "uvr": ["k", "ur", "uc", "vr", "vc", "rc"], "extract": ["pr", "wn", "pw", "ln", "tr", "tc"]}
+AT_LEAST_ONE = {"compsq", "nr", "nx", "d", "n"}
+
+
+def g_perturb(g, rng, tier):
+    """Shape fuzzing: a valid case with ONE size parameter moved by +-1 / +-2.  Wherever the result leaves the
+    declared shapes, model and implementation must fail in the same entry point with the same kind of
+    precondition; this is what exercises the site labels that no valid configuration can make fail."""
+    pool = [c for c in g.cases if c.meta.get("cls") == "valid" and not c.meta.get("tag") and c.kind in PERTURB]
+    by_kind = {}
+    for c in pool:
+        by_kind.setdefault(c.kind, []).append(c)
+    kinds = sorted(by_kind)
+    for i in range(72):
+        kind = kinds[i % len(kinds)]
+        c = rng.choice(by_kind[kind])
+        key = rng.choice(PERTURB[kind])
+        meta = {k: v for k, v in c.meta.items() if k not in ("cls", "tag")}
+        old = int(meta.get(key, 0))
+        newv = max(1 if key in AT_LEAST_ONE else 0, old + rng.choice([-2, -1, 1, 2]))
+        if newv == old:
+            newv = old + 1
+        meta[key] = newv
+        meta["fuzz"] = key
+        words = {n: v for (t, n, v) in c.ops if t == "word"}
+        g.add(kind, "outside", meta, words)
+
+
+GENS = [g_wna, g_simstate, g_linsensor, g_history, g_grid, g_sigma, g_psaug, g_ut, g_kf, g_ukf, g_resample, g_density, g_extract, g_lifetime, g_perturb]
 
 
 def generate(rng, tier):
@@ -496,9 +532,9 @@ REPORT_KIND = {"eigen-assert": "eigen-assert", "asan": "asan", "ubsan": "ubsan"}
 
 def entry_of(info):
     se = info.get("stderr", "")
-    m = re.search(r"entry=(\S+)", se)
+    m = re.findall(r"entry=(\S+)", se)      # the last announcement: the assertion / death line, or the entry entered last
     if m:
-        return m.group(1)
+        return m[-1]
     # UBSan's abort path does not run the death callback: take the innermost library frame of its stack trace
     m = re.search(r"#\d+ 0x[0-9a-f]+ in (bfl::[^/]*?\)) /", se)
     return m.group(1).replace("bfl::", "").replace(" ", "") if m else "unknown"
@@ -513,7 +549,7 @@ def report_class(info):
         if "empty matrix" in cond or "rows()>0" in cond.replace(" ", ""): return "empty"
         if cond.replace(" ", "") in ("rows()==cols()",): return "not-square"
         if "startRow" in cond or "startCol" in cond or "(i>=0)" in cond.replace(" ", ""): return "block"
-        if "dst.rows() == src.rows()" in cond or "aLhs.rows() == aRhs.rows()" in cond or "does not actually allow to resize" in cond: return "size-mismatch"
+        if "dst.rows() == src.rows()" in cond or "aLhs.rows() == aRhs.rows()" in cond or "does not actually allow" in cond: return "size-mismatch"
         if "index >= 0" in cond or "row >= 0" in cond: return "index"
         if "comma" in cond.lower() or "Too" in cond: return "comma-initializer"
         return "eigen-assert"
@@ -521,7 +557,7 @@ def report_class(info):
     if m: return m.group(1)
     if "BFL_VERIF_SIGNAL" in se: return "crash"
     if "runtime error" in se:
-        m = re.search(r"runtime error: ([a-z ]+)", se)
+        m = re.search(r"runtime error: ([a-z ]+?)(?: \d|,|$|\n)", se)
         return "ubsan-" + (m.group(1).strip().replace(" ", "-")[:40] if m else "report")
     return info.get("kind", "crash")
 
@@ -550,7 +586,8 @@ def on_crash(case, info, model):
         # same entry point: the kind of failing precondition must correspond too
         want = CLASS_OF_OP.get(word1(model, "opclass"), set())
         CLASS_CHECKED[0] += 1
-        if rc not in want:
+        # a block with a negative start makes Eigen's MapBase do the pointer arithmetic before its assertion: UBSan reports first
+        if rc not in want and not (rc.startswith("ubsan-") and word1(model, "opclass") in ("blk", "idx")):
             CLASS_CHECKED[1] += 1
             return [("C14:correspondence-class:%s" % ie, "model: site %s fails as %s; implementation reports %s; %s"
                      % (ms, word1(model, "opclass"), rc, info.get("stderr", "")[-400:].replace("\n", " | ")))]
